@@ -47,6 +47,26 @@ theorem kindCount_ticks (A : Arith F) (it : Iter F) (s : Nat) (k : Kind) (ds : L
 def spanTicks (A : Arith F) (it : Iter F) (s : Nat) (ds : List F) : List (Event F) :=
   if s % 2 == 1 then (ds.map (tickEvent A it s)).reverse else ds.map (tickEvent A it s)
 
+
+/-- The ticks of any span are a permutation of the same per-span tick list: reversal only
+permutes, so every span has the same number of ticks at the same path positions. -/
+theorem spanTicks_perm (A : Arith F) (it : Iter F) (s : Nat) (ds : List F) :
+    (spanTicks A it s ds).Perm (ds.map (tickEvent A it s)) := by
+  unfold spanTicks
+  split
+  · exact List.reverse_perm _
+  · exact List.Perm.refl _
+
+theorem tickEvent_progress (A : Arith F) (it : Iter F) (s : Nat) (d : F) :
+    (tickEvent A it s d).progress = A.div d it.len := rfl
+
+/-- Path positions of the ticks of span `s`, as a multiset, do not depend on `s`. -/
+theorem spanTicks_progress_perm (A : Arith F) (it : Iter F) (s : Nat) (ds : List F) :
+    ((spanTicks A it s ds).map (·.progress)).Perm (ds.map fun d => A.div d it.len) := by
+  have h := (spanTicks_perm A it s ds).map (·.progress)
+  rw [List.map_map] at h
+  exact h
+
 /-- The repeat that closes span `s` (every span but the last). -/
 def spanRepeat (A : Arith F) (it : Iter F) (s : Nat) : List (Event F) :=
   if (s : Int) < (it.spanCount : Int) - 1 then [repeatPoint A s (spanStartTime A it s) it.spanDur]
